@@ -12,6 +12,19 @@ Theorem C18_source_fully_locked : all_locked gen_locks = true.
 Proof. exact (eq_refl true). Qed.
 Print Assumptions C18_source_fully_locked.
 
+(* Worker.run clears the job slot and calls notify_done AFTER the try statement around self.job(), and the handler
+   catches Exception without leaving the loop: a job that ends by raising is handed back exactly like one that returns.
+   This is what entitles the model to have a single job-end step (WJobEnd) for both outcomes. *)
+Theorem C18_source_worker_hands_back : worker_handback_unconditional = true.
+Proof. exact (eq_refl true). Qed.
+Print Assumptions C18_source_worker_hands_back.
+
+(* the accept loop puts COMMTIMEOUT on the accepted socket BEFORE it submits the connection, so the refusal handshake
+   (which runs in the accept-loop thread) cannot wait forever for a silent peer: the model's refusal step is always enabled *)
+Theorem C18_source_refusal_has_timeout : accept_timeout_before_submit = true.
+Proof. exact (eq_refl true). Qed.
+Print Assumptions C18_source_refusal_has_timeout.
+
 (* workers stay bounded; idle/busy bookkeeping; a refusal is decided only with no idle worker and SIZE busy ones *)
 Theorem C18_pool_invariants :
   forall (c : cfg) (sched : list (nat * nat)),
